@@ -405,6 +405,20 @@ impl Compile for Number {
     }
 }
 
+/// An integer literal without a suffix is an int if it fits one, and a bigint otherwise, wherever it
+/// stands (also as an operand that is not folded: `3000000000 + y`).
+fn int_or_bigint(digits: String) -> Result<Number> {
+    if digits.parse::<i32>().is_ok() {
+        return Ok(Number::Integer(digits));
+    }
+
+    digits
+        .parse::<i128>()
+        .with_context(|| format!("`{digits}` does not fit in a bigint (128 bits)"))?;
+
+    Ok(Number::BigInt(digits))
+}
+
 pub fn number_from_string(string: &str, rule: Rule) -> Result<Number> {
     let as_str: String = string.chars().filter(|x| x != &'_').collect();
 
@@ -418,11 +432,11 @@ pub fn number_from_string(string: &str, rule: Rule) -> Result<Number> {
                 Number::BigInt(no_prefix.to_owned())
             }
         }
-        Rule::integer => Number::Integer(as_str),
+        Rule::integer => int_or_bigint(as_str)?,
         Rule::hex_int => {
             let as_hex = i128::from_str_radix(&as_str[2..], 16)?.to_string();
 
-            Number::Integer(as_hex)
+            int_or_bigint(as_hex)?
         }
         Rule::float => {
             if let Some(float_of_int) = as_str.strip_suffix(['F', 'f']) {
